@@ -201,10 +201,22 @@ def lines_with_loops(path):
                     add(x, tuple(loops), st)
             else:
                 add(a0, tuple(loops), st)
-    if not out and path.ret is not None:
-        from .symx import line_exprs
-        for e, st, it in line_exprs(path, with_iter=True):
-            out.append((e, (norm(it),) if it is not None else (), st))
+    if path.ret is not None:
+        # entries of the joined list that did not come in through a recorded append / extend: what the
+        # list was started with (r = [first, second] / r = self._rows(...)), or a joined comprehension
+        events_lines = out
+        out = []
+        joins = [n for n in ast.walk(path.ret) if isinstance(n, ast.Call) and isinstance(n.func, ast.Attribute)
+                 and n.func.attr == 'join' and len(n.args) == 1]
+        for n in joins:
+            a0 = n.args[0]
+            if isinstance(a0, ast.List):
+                for x in a0.elts:
+                    if not getattr(x, '_appended', False):
+                        add(x, (), None)
+            elif _is_each(a0):
+                add(a0, (), None)
+        out = out + events_lines
     return out
 
 
